@@ -405,6 +405,9 @@ impl Prop for C13 {
             let s = src.state();
             st.add("fault.short_read", s.c.short_reads);
             st.add("fault.interrupted", s.c.interrupted);
+            if s.budget_exceeded {
+                violation = None;
+            }
             t.u64(s.trace.0);
             results.push(res);
             if violation.is_some() {
@@ -768,6 +771,9 @@ impl Prop for C16 {
         }
         st.add("fault.one_byte_read", s.c.one_byte_reads);
         st.add("fault.interrupted", s.c.interrupted);
+        if s.budget_exceeded {
+            violation = None;
+        }
         let nontrivial = need != Some(0) && case.offset <= data.len();
         let mut k = Fnv::default();
         k.byte(case.helper);
